@@ -9,7 +9,7 @@ from fractions import Fraction
 
 from harness.common import coq_list, Ctx
 
-WEIGHT_KINDS = ('small-int', 'dyadic', 'negative', 'zero', 'ties')
+WEIGHT_KINDS = ('small-int', 'dyadic', 'negative', 'zero', 'ties', 'tiny-float', 'wide-range', 'huge-float')
 NODE_KINDS = ('int', 'tuple2', 'tuple3', 'txy-bool', 'identity', 'identity-dup', 'mixed-tuples')
 DENSITIES = (1.0, 0.7, 0.4)
 
@@ -108,12 +108,21 @@ def make_weight(rng, kind):
         return rng.choice([rng.randint(-9, 9), rng.randint(-40, 40) / 4.0])
     if kind == 'zero':
         return rng.choice([0, 0.0])
+    if kind == 'tiny-float':          # all weights around 1e-18 .. 1e-21 (exact dyadics)
+        return rng.randint(1, 40) * 2.0 ** -70
+    if kind == 'wide-range':          # order-one weights next to a few enormous ones; every partial sum stays an
+        # exactly representable double (multiples of 1/4 below 2^45), so exact minimality is meaningful for floats
+        return rng.choice([float(rng.randint(1, 9)), rng.randint(1, 12) / 4.0, float(2 ** 40), float(2 ** 40 + 2 ** 10)])
+    if kind == 'huge-float':
+        return rng.randint(1, 30) * 2.0 ** 80
     return rng.choice([1, 1, 1, 2, 2.0])
 
 
 def frac(w):
     f = Fraction(w)
-    return '%d/%d' % (f.numerator, f.denominator)
+    if abs(f.numerator) < 2 ** 60 and f.denominator < 2 ** 60:
+        return '%d/%d' % (f.numerator, f.denominator)
+    return '%sb%s/b%s' % ('-' if f.numerator < 0 else '', format(abs(f.numerator), 'b'), format(f.denominator, 'b'))
 
 
 def parse_q(s):
@@ -421,6 +430,9 @@ def run(ctx):
             if f['perfect'] != '1':
                 ctx.violation('not-perfect', '%s: returned matching is not a perfect matching of the graph '
                               '(verified checker is_perfect = false)' % fname, repv)
+            elif f['min'] != '1' and float(parse_q(f['w'])) == float(parse_q(f['minw'])) and parse_q(f['w']) != parse_q(f['minw']):
+                # float weights whose exact totals differ by less than a rounding error: equal as doubles
+                ctx.count(None, False, kind + '/equal-as-floats')
             elif f['min'] != '1':
                 ctx.violation('not-minimum', '%s: returned perfect matching has weight %s but %s has the smaller '
                               'weight %s (verified checker is_min_pm = false)'
